@@ -1,6 +1,6 @@
 """C02 — PostgreSQL SQL computes the same table as the Pandas executor."""
 from .. import oracles
-from ..propkit import with_oracle
+from ..propkit import OracleOnly, with_oracle
 from ..suites_ops import K4Sem
 from ..suites_sql import K5Near, K5SemOpt, K5Twins
 
@@ -59,14 +59,39 @@ RULE = ("random type-directed pipelines over catalogue methods supported by Pand
         "executed on SQLite vs model semantics (k5_sem), Pandas vs model (k4_sem), and oracle_C01 (Pandas result vs SQLite result "
         "with the property's comparison rule); non-trivial = evaluates to at least one row / a non-table NearSQL tree")
 
+def _own_text(oracle_fn):
+    """attribute failures on a case whose extend assigns to a column named like the expression's own SQL text (finding
+    enc-term-text-equals-name)"""
+    from .. import pipes
+
+    def f(case, **opts):
+        fs = list(oracle_fn(case, **opts) or [])
+        own = any(s.get("call") in ("extend", "project") and any(str(k) == str(v) for k, v in (s.get("ops") or []))
+                  for s in pipes.pipe_steps(case["pipe"]))
+        if own:
+            for x in fs:
+                if not (x.get("finding") or x.get("candidate")):
+                    x["candidate"] = "enc-term-text-equals-name"
+        return fs
+    return f
+
+
+
+class _Witnesses(OracleOnly):
+    """witnesses of listed findings that the models do not exhibit (no model side: judged by the oracle alone)"""
+    def gen(self, rng, tier):
+        return iter(())
+
+
 SUITES = [
     # the PostgreSQL dialect text executed on the stand-in engine (SQLite 3.40: native RIGHT/FULL JOIN, WITH) vs the model,
     # under every use_with / use_cte_elim / merge combination the dialect allows
-    with_oracle(K5SemOpt, oracles.oracle_C02, every=1, ignore_kinds=("pandas-raised",), corpus_dir="C02"),
+    with_oracle(K5SemOpt, _own_text(oracles.oracle_C02), every=1, ignore_kinds=("pandas-raised",), corpus_dir="C02"),
     K5Near(dialects=("postgres",)),
     K4Sem(),
     # the same calls on twin inputs under CTE elimination (what a cache key must tell apart)
     with_oracle(K5Twins, oracles.oracle_C02, name="k5_twins", ignore_kinds=("pandas-raised",)),
+    with_oracle(_Witnesses, _own_text(oracles.oracle_C02), name="c02_witnesses", ignore_kinds=("pandas-raised",), corpus_dir="C02"),
 ]
 SUITES[0].n_quick = 200
 SUITES[1].n_quick = 200
